@@ -1,5 +1,118 @@
+/-
+  Line-protocol driver of the C03 model (`rigodriver rlp`).
+
+    pre <chainHex> <tx>             -> hex of `preimage chainId tx`       (PreImageToSignTrxRLP)
+    enc <chainHex> <tx>             -> hex of `rlpTrx tx`                 (rlp.EncodeToBytes(tx), Sig included)
+    mon <label..> / <chainHex> <tx> / <chainHex> <tx>
+                                    -> `pre=<same|diff> fields=<same|diff> chain=<same|diff>`
+    reset                           -> `reset`
+
+    <tx> = <version> <time> <nonce> <fromHex> <toHex> <amount> <gas> <gasPrice> <type> <sigHex> <payload>
+    <payload> = none | unstaking <hex> | voting <hex> <choice> | contract <hex> | setdoc <hex> <hex>
+              | withdraw <dec> | proposal <msgHex> <start> <period> <applying> <optType> <k> <hex>*k
+  Byte strings are lower-case hex, the empty string is `-`; numbers are decimal.  A value outside the
+  range of its Go type, or a malformed line, gives `bad-op`.
+-/
+import Rigo.Preimage
 import RigoDriver.Util
+open Rigo.RLP Rigo.Preimage
+
 namespace RigoDriver.Rlp
-/-- stub: replaced by the component's line-protocol driver -/
-def run : IO Unit := pure ()
+
+def hexVal (c : Char) : Option Nat :=
+  if '0' ≤ c ∧ c ≤ '9' then some (c.toNat - 48)
+  else if 'a' ≤ c ∧ c ≤ 'f' then some (c.toNat - 87)
+  else if 'A' ≤ c ∧ c ≤ 'F' then some (c.toNat - 55)
+  else none
+
+def parseHexChars : List Char → Option Bytes
+  | [] => some []
+  | [_] => none
+  | a :: b :: rest => do
+    let x ← hexVal a
+    let y ← hexVal b
+    let r ← parseHexChars rest
+    pure ((x * 16 + y) :: r)
+
+def parseHex (s : String) : Option Bytes :=
+  if s = "-" then some [] else parseHexChars s.toList
+
+def hexDigit (n : Nat) : Char := if n < 10 then Char.ofNat (48 + n) else Char.ofNat (87 + n)
+
+def toHex (b : Bytes) : String :=
+  if b.isEmpty then "-" else
+  String.ofList (b.foldr (fun x acc => hexDigit (x / 16) :: hexDigit (x % 16) :: acc) [])
+
+def natIn (s : String) (bound : Nat) : Option Nat := do
+  let n ← s.toNat?
+  if n < bound then pure n else none
+
+def intIn (s : String) (lo hi : Int) : Option Int := do
+  let n ← s.toInt?
+  if lo ≤ n ∧ n < hi then pure n else none
+
+def i64? (s : String) : Option Int := intIn s (-9223372036854775808) 9223372036854775808
+def i32? (s : String) : Option Int := intIn s (-2147483648) 2147483648
+def u64? (s : String) : Option Nat := natIn s 18446744073709551616
+def u32? (s : String) : Option Nat := natIn s 4294967296
+def u256? (s : String) : Option Nat :=
+  natIn s 115792089237316195423570985008687907853269984665640564039457584007913129639936
+
+def parsePayload : List String → Option Payload
+  | ["none"] => some .none
+  | ["unstaking", h] => do pure (.unstaking (← parseHex h))
+  | ["voting", h, c] => do pure (.voting (← parseHex h) (← i32? c))
+  | ["contract", d] => do pure (.contract (← parseHex d))
+  | ["setdoc", n, u] => do pure (.setdoc (← parseHex n) (← parseHex u))
+  | ["withdraw", r] => do pure (.withdraw (← u256? r))
+  | "proposal" :: m :: s :: p :: a :: o :: k :: opts => do
+    let k ← k.toNat?
+    if opts.length ≠ k then none else
+    let os ← opts.mapM parseHex
+    pure (.proposal (← parseHex m) (← i64? s) (← i64? p) (← i64? a) (← i32? o) os)
+  | _ => none
+
+/-- `<chainHex> <tx>` -/
+def parseChainTx : List String → Option (Bytes × Trx)
+  | c :: v :: t :: n :: f :: to :: amt :: g :: gp :: ty :: sg :: pl => do
+    let payload ← parsePayload pl
+    pure (← parseHex c,
+      { version := ← u32? v, time := ← i64? t, nonce := ← u64? n, sender := ← parseHex f,
+        receiver := ← parseHex to, amount := ← u256? amt, gas := ← u64? g, gasPrice := ← u256? gp,
+        type := ← i32? ty, payload := payload, sig := ← parseHex sg })
+  | _ => none
+
+def splitSlash (ws : List String) : List (List String) :=
+  ws.foldr (fun w acc =>
+    if w = "/" then [] :: acc else
+    match acc with
+    | [] => [[w]]
+    | x :: xs => (w :: x) :: xs) [[]]
+
+def sd (b : Bool) : String := if b then "same" else "diff"
+
+def stepLine (_ : Unit) (ws : List String) : Unit × Option String :=
+  match ws with
+  | ["reset"] => ((), some "reset")
+  | "pre" :: rest =>
+    match parseChainTx rest with
+    | some (c, t) => ((), some (toHex (preimage c t)))
+    | none => ((), some "bad-op")
+  | "enc" :: rest =>
+    match parseChainTx rest with
+    | some (_, t) => ((), some (toHex (rlpTrx t)))
+    | none => ((), some "bad-op")
+  | "mon" :: rest =>
+    match splitSlash rest with
+    | [_, a, b] =>
+      match parseChainTx a, parseChainTx b with
+      | some (c₁, t₁), some (c₂, t₂) =>
+        ((), some s!"pre={sd (preimage c₁ t₁ == preimage c₂ t₂)} fields={sd (decide (signedFields t₁ = signedFields t₂))} chain={sd (c₁ == c₂)}")
+      | _, _ => ((), some "bad-op")
+    | _ => ((), some "bad-op")
+  | _ => ((), some "bad-op")
+
+def run : IO Unit := do
+  RigoDriver.loop (← IO.getStdin) (← IO.getStdout) () stepLine
+
 end RigoDriver.Rlp
